@@ -1355,7 +1355,590 @@ def _show(v):
         return v[1]
     if t in ('top', 'stale', 'name'):
         return f'?{v[1]}'
+    if t == 'lin':
+        parts = [('' if k == 1 else '-' if k == -1 else f'{k}*') + _show(a) for a, k in v[2]]
+        if v[1] or not parts:
+            parts.insert(0, str(v[1]))
+        return '+'.join(parts).replace('+-', '-')
+    if t == 'L':
+        return 'L'
+    if t == 'bytes':
+        return repr(v[1])
+    if t == 'slice':
+        return f'{_show(v[1])}[{"" if v[2] == _lin(0) else _show(v[2])}:{"" if v[3] is None else _show(v[3])}]'
     return str(v)
+
+
+# ---------------------------------------------------------------------------
+# R-C14-1, stateless ("peek") style: no per-connection expected length; every iteration looks at the front of the
+# buffer afresh:  H <= len(buffer) ;  L = unpack(buffer[0:H]) ;  H + L <= len(buffer) or leave ;  message =
+# buffer[H:H+L] ;  buffer = buffer[H+L:].
+#
+# Integer values are linear forms ('lin', c, ((atom, coef), ..)) over opaque atoms: ('len', b), the decoded body length
+# ('L', fmt, H, unsigned) [only ever built for  unpack(fmt, B[0:H])[0]  with B the buffer as it was at the start of the
+# iteration and H == calcsize(fmt)], and anything integer-like the analysis cannot see through.  Byte strings are
+# ('slice', b, lo, hi | None) with linear bounds (slices of slices are composed), ('cat', a, b), ('param', p).
+# Facts are linear forms known to be >= 0 on the path (integers:  x < y  is  y - x - 1 >= 0).
+
+
+def _lin(c=0, terms=()):
+    d = {}
+    for a, k in terms:
+        d[a] = d.get(a, 0) + k
+    return ('lin', c, tuple(sorted(((a, k) for a, k in d.items() if k), key=repr)))
+
+
+def _ladd(x, y, s=1):
+    return _lin(x[1] + s * y[1], list(x[2]) + [(a, s * k) for a, k in y[2]])
+
+
+def _lmul(x, k):
+    return _lin(x[1] * k, [(a, c * k) for a, c in x[2]])
+
+
+def _lconst(v):
+    return v[1] if v[0] == 'lin' and not v[2] else None
+
+
+def _nonneg(x):
+    """the form is a sum of things that cannot be negative (lengths, unsigned decoded fields, a constant >= 0)"""
+    return x[1] >= 0 and all(k > 0 and (a[0] == 'len' or (a[0] == 'L' and a[3])) for a, k in x[2])
+
+
+def _implied(R, facts):
+    """R >= 0 holds by itself or follows from one fact F >= 0 (R - F cannot be negative)"""
+    return _nonneg(R) or any(_nonneg(_ladd(R, F, -1)) for F in facts)
+
+
+def _unsigned_single(fmt):
+    body = fmt[1:] if fmt[:1] in '@=<>!' else fmt
+    return len(body) == 1 and body in 'BHILQN'
+
+
+_FROM_BYTES = {1: '>B', 2: '>H', 4: '>I', 8: '>Q'}
+_PIt = namedtuple('_PIt', 'used')
+
+
+class _Peek(_Loop):
+    """one symbolic iteration of a stateless reassembly loop (see the comment above); obligations per path:
+
+    data-use  the received data extends the buffer once, before the loop; the loop is entered only afterwards
+    guard     header / body slices are used, and a frame is removed, only where  hi <= len(buffer)  was established
+    consume   an iteration that reaches the loop head again advanced the buffer by exactly H + L; every other write of
+              the buffer is a finding (so an incomplete frame leaves the buffer alone)
+    chunk     what is handed on is buffer[0:H] (header) or buffer[H:H+L] (message), nothing else; the message was taken
+    exit      the function returns with the buffer of this iteration untouched and  len < H  or  len < H + L  established
+    """
+
+    NOLEN = '\0'  # no location is ever called like this: there is no expected-length state
+
+    def __init__(self, prog, func, ci, bufloc, param, ext_nodes):
+        super().__init__(prog, func, ci, bufloc, self.NOLEN, set(), param, ext_nodes, None)
+        self.exit_bounds = []  # (node, k): the function returns because  len(buffer) < k
+
+    # ----------------------------------------------------------------- values
+    def bufish(self, v):
+        """the value is (a part of / an extension of) the bytes of the buffer"""
+        if not isinstance(v, tuple) or not v:
+            return False
+        if v[0] in ('nn', 'hv', 'init'):
+            return v[1] == self.bufloc
+        if v[0] == 'slice':
+            return self.bufish(v[1])
+        if v[0] == 'cat':
+            return self.bufish(v[1]) or self.bufish(v[2])
+        return False
+
+    def byteslike(self, v):
+        return v[0] in ('cat', 'slice', 'bytes', 'param', 'pack') or self.bufish(v)
+
+    def nullness(self, v):
+        if v == NONE:
+            return 'none'
+        if v[0] in ('lin', 'slice', 'cat', 'bytes', 'nn', 'hv', 'bool', 'str', 'pack', 'unpack'):
+            return 'nonnull'
+        return 'unknown'
+
+    def num(self, v):
+        """the value as a linear form (integer-like values the analysis cannot see through become atoms); None for
+        byte strings, None, booleans"""
+        if v[0] == 'lin':
+            return v
+        if v[0] in ('top', 'stale', 'name', 'init', 'idx', 'hv') and not self.bufish(v):
+            return _lin(0, [(v, 1)])
+        return None
+
+    def read(self, loc, st):
+        v = _eget(st, loc)
+        if v is not None:
+            return v
+        if loc.startswith('self.'):
+            if loc not in self._const:
+                c = self.ci.const_node(loc)
+                val = ('init', loc)
+                if c is not None:
+                    saved, self.func = self.func, c[0]
+                    try:
+                        cv = self.sym(c[1], _St(frozenset(), frozenset(), frozenset(), None, 0))
+                    finally:
+                        self.func = saved
+                    if cv == NONE or cv[0] == 'bytes' or _lconst(cv) is not None:
+                        val = cv
+                self._const[loc] = val
+            return self._const[loc]
+        return ('name', loc)
+
+    def canon(self, v):
+        """unpack(fmt, B[0:H])[0]  with H == calcsize(fmt), one unsigned field, B the buffer at the start of the
+        iteration  ->  the decoded body length L"""
+        if v[0] == 'idx' and v[2] == 0 and v[1][0] == 'unpack':
+            fmt, s = v[1][1], v[1][2]
+            if s[0] == 'slice' and s[1] == self.BH and s[2] == _lin(0) and s[3] is not None:
+                a = _lconst(s[3])
+                try:
+                    ok = a is not None and a > 0 and _struct.calcsize(fmt) == a and len(_struct.unpack(fmt, bytes(a))) == 1
+                except _struct.error:
+                    ok = False
+                if ok:
+                    self.hdr.add((a, fmt))
+                    return _lin(0, [(('L', fmt, a, _unsigned_single(fmt)), 1)])
+        return v
+
+    def mk_slice(self, base, lo, hi, text):
+        """base[lo:hi] for bounds that cannot be negative; a slice of a slice is expressed on the underlying bytes"""
+        if not (_nonneg(lo) and (hi is None or _nonneg(hi))):
+            return ('top', text)  # an index that may be negative counts from the end: not understood
+
+        def mk(x, l, h):
+            return x if (l == _lin(0) and h is None) else ('slice', x, l, h)
+
+        if base[0] != 'slice':
+            return mk(base, lo, hi)
+        _t, x, lo0, hi0 = base
+        nlo = _ladd(lo0, lo)
+        nhi = None if hi is None else _ladd(lo0, hi)
+        if hi0 is None:
+            return mk(x, nlo, nhi)  # x[a:][b:c] == x[a+b:a+c]
+        if nhi is None or nhi == hi0:
+            return mk(x, nlo, hi0)  # x[a:c][b:] == x[a+b:c]
+        if _nonneg(_ladd(hi0, nhi, -1)):
+            return mk(x, nlo, nhi)  # x[a:c][b:d] with a+d <= c
+        return ('top', text)
+
+    def arith(self, op, a, b, text):
+        if isinstance(op, ast.Add) and (self.byteslike(a) or self.byteslike(b)):
+            return ('cat', a, b)
+        na, nb = self.num(a), self.num(b)
+        if na is not None and nb is not None:
+            if isinstance(op, ast.Add):
+                return _ladd(na, nb)
+            if isinstance(op, ast.Sub):
+                return _ladd(na, nb, -1)
+            if isinstance(op, ast.Mult):
+                for x, y in ((na, nb), (nb, na)):
+                    if _lconst(y) is not None:
+                        return _lmul(x, _lconst(y))
+        return ('top', text)
+
+    def sym(self, e, st):
+        if isinstance(e, ast.Constant):
+            v = e.value
+            if v is None:
+                return NONE
+            if isinstance(v, bool):
+                return ('bool', v)
+            if isinstance(v, int):
+                return _lin(v)
+            if isinstance(v, bytes):
+                return ('bytes', v)
+            if isinstance(v, str):
+                return ('str', v)
+            return ('top', 'const')
+        l = loc_of(e)
+        if l is not None:
+            return self.read(l, st)
+        if isinstance(e, ast.Subscript):
+            base = self.sym(e.value, st)
+            sl = e.slice
+            if isinstance(sl, ast.Slice):
+                lo = _lin(0) if sl.lower is None else self.num(self.sym(sl.lower, st))
+                hi = None if sl.upper is None else self.num(self.sym(sl.upper, st))
+                if sl.step is not None or lo is None or (sl.upper is not None and hi is None):
+                    return ('top', norm(e))
+                return self.mk_slice(base, lo, hi, norm(e))
+            if isinstance(sl, ast.Constant) and isinstance(sl.value, int) and not isinstance(sl.value, bool):
+                return self.canon(('idx', base, sl.value))
+            return ('top', norm(e))
+        if isinstance(e, ast.Call):
+            if isinstance(e.func, ast.Name) and e.func.id == 'len' and len(e.args) == 1 and not e.keywords:
+                a = self.sym(e.args[0], st)
+                if a[0] == 'pack':
+                    return _lin(a[2])
+                if a[0] == 'bytes':
+                    return _lin(len(a[1]))
+                return _lin(0, [(('len', a), 1)])
+            fn = e.func
+            if (
+                isinstance(fn, ast.Attribute) and fn.attr == 'from_bytes' and isinstance(fn.value, ast.Name) and fn.value.id == 'int'
+                and e.args and not any(k.arg == 'signed' for k in e.keywords)
+            ):
+                # accepted spelling: int.from_bytes(buffer[0:H], 'big') is the unsigned big-endian field of H bytes
+                order = e.args[1] if len(e.args) == 2 else next((k.value for k in e.keywords if k.arg == 'byteorder'), None)
+                x = self.sym(e.args[0], st)
+                if isinstance(order, ast.Constant) and order.value == 'big' and x[0] == 'slice' and x[3] is not None:
+                    fmt = _FROM_BYTES.get(_lconst(_ladd(x[3], x[2], -1)))
+                    if fmt is not None:
+                        return self.canon(('idx', ('unpack', fmt, x), 0))
+                return ('top', norm(e))
+            q = self.prog.resolve_in(e.func, self.func)
+            if q in ('external:struct.pack', 'external:struct.unpack', 'external:struct.unpack_from') and e.args:
+                fmt = e.args[0]
+                if isinstance(fmt, ast.Constant) and isinstance(fmt.value, str):
+                    try:
+                        size = _struct.calcsize(fmt.value)
+                    except _struct.error:
+                        return ('top', norm(e))
+                    if q.endswith('.pack'):
+                        return ('pack', fmt.value, size)
+                    if q.endswith('.unpack') and len(e.args) == 2 and not e.keywords:
+                        return ('unpack', fmt.value, self.sym(e.args[1], st))
+                    if q.endswith('.unpack_from') and self._from_zero(e):
+                        # accepted spelling: unpack_from(fmt, buffer) reads exactly the first calcsize(fmt) bytes
+                        return ('unpack', fmt.value, self.mk_slice(self.sym(e.args[1], st), _lin(0), _lin(size), norm(e)))
+            return ('top', norm(e))
+        if isinstance(e, ast.BinOp) and isinstance(e.op, (ast.Add, ast.Sub, ast.Mult)):
+            return self.arith(e.op, self.sym(e.left, st), self.sym(e.right, st), norm(e))
+        if isinstance(e, ast.IfExp):
+            d = self.decide(e.test, st)
+            if d is True:
+                return self.sym(e.body, st)
+            if d is False:
+                return self.sym(e.orelse, st)
+            return ('top', norm(e))
+        if self.is_predicate(e):
+            d = self.decide(e, st)
+            if d is not None:
+                return ('bool', d)
+        return ('top', norm(e))
+
+    @staticmethod
+    def _from_zero(call):
+        """struct.unpack_from(fmt, buf) / (fmt, buf, 0) / (fmt, buf, offset=0)"""
+        off = call.args[2] if len(call.args) == 3 else next((k.value for k in call.keywords if k.arg == 'offset'), None)
+        if len(call.args) not in (2, 3) or any(k.arg != 'offset' for k in call.keywords):
+            return False
+        return off is None or (isinstance(off, ast.Constant) and off.value == 0 and not isinstance(off.value, bool))
+
+    # ------------------------------------------------------------------ tests
+    def on_test(self, e, st):
+        if isinstance(e, ast.Compare) and len(e.ops) == 1 and type(e.ops[0]) in _OPS:
+            a = self.num(self.sym(e.left, st))
+            b = self.num(self.sym(e.comparators[0], st))
+            if a is None or b is None:
+                return (st,), (st,)
+            rel = _OPS[type(e.ops[0])]
+            if rel in ('le', 'lt'):
+                d = _ladd(b, a, -1)
+            else:
+                d = _ladd(a, b, -1)
+            if rel in ('lt', 'gt'):
+                d = _ladd(d, _lin(1), -1)
+            return self.branch(st, d)
+        if isinstance(e, (ast.Name, ast.Attribute, ast.Subscript)):
+            v = self.sym(e, st)
+            if self.bufish(v) or v[0] == 'param':
+                # truth value of a byte string: it is not empty
+                return self.branch(st, _lin(-1, [(('len', v), 1)]))
+        return super().on_test(e, st)
+
+    def branch(self, st, d):
+        """outcomes of a test that is true exactly when d >= 0"""
+        n = _ladd(_lin(-1), d, -1)
+        if _implied(d, st.facts):
+            return (st,), ()
+        if _implied(n, st.facts):
+            return (), (st,)
+        return (st._replace(facts=st.facts | {d}),), (st._replace(facts=st.facts | {n}),)
+
+    # ------------------------------------------------------------------ calls
+    def on_call(self, call, st):
+        if call_name(call) == 'loseConnection':
+            st = _flag(st, 'lost')
+        t = self.ci.self_targets(call, self.func)
+        if t is None:
+            return (st,)
+        mw = set()
+        if t[1] is None:
+            mw = {'*'}
+        else:
+            for g in t[1]:
+                mw |= self.ci.maywrite(g)
+        if '*' in mw or self.bufloc in mw or base_of(self.bufloc) in mw:
+            st = _eset(st, self.bufloc, ('hv', self.bufloc, st.gen))
+            st = st._replace(gen=st.gen + 1)
+        return (st,)
+
+    # ------------------------------------------------------------- statements
+    def buf_write(self, val, stmt, st):
+        cur = self.read(self.bufloc, st)
+        if val == ('cat', cur, ('param', self.param)):
+            if st.it is not None:
+                self.problem('data-use', stmt, 'the buffer is extended by the received data inside the loop')
+            if 'ext' in st.flags:
+                self.problem('data-use', stmt, 'the received data is appended to the buffer a second time on some path')
+            self.count('extensions')
+            return _flag(_eset(st, self.bufloc, val), 'ext')
+        if st.it is not None and (val == self.BH or (val[0] == 'slice' and val[1] == self.BH and val[3] is None)):
+            # the front of this iteration's buffer is removed; how much, and whether that much was known to be
+            # there, is judged where the iteration ends (back edge / exit)
+            self.count('consumptions')
+            return _eset(st, self.bufloc, val)
+        self.problem(
+            'consume',
+            stmt,
+            f'{norm(stmt)}: the buffer is assigned {_show(val)[:60]}, which is neither its extension by the received data '
+            '(before the loop) nor the buffer of this iteration with a front removed (inside the loop): buffered bytes '
+            'of an incomplete frame can be lost or duplicated',
+        )
+        return _eset(st, self.bufloc, ('top', norm(stmt)))
+
+    def assign(self, t, val, stmt, st):
+        return super().assign(t, self.canon(val), stmt, st)
+
+    def on_stmt(self, s, st):
+        if isinstance(s, ast.AugAssign):
+            l = loc_of(s.target)
+            if l is not None:
+                val = self.arith(s.op, self.read(l, st), self.sym(s.value, st), norm(s))
+                st = self.assign(s.target, val, s, st)
+            return (st,)
+        return super().on_stmt(s, st)
+
+    # ------------------------------------------------------------ expressions
+    def frame_of(self, d):
+        """the atom L when d is  H + L  with L decoded from the first H bytes, else None"""
+        if d[0] == 'lin' and len(d[2]) == 1:
+            (a, k), = d[2]
+            if k == 1 and a[0] == 'L' and a[2] == d[1]:
+                return a
+        return None
+
+    def passes_on(self, e):
+        """the parent construct only carries the bytes on to where they are judged (further slice, len, a local, the
+        buffer itself, a concatenation) or only tests them; returns False when the bytes are USED there"""
+        p = self.parent.get(id(e))
+        while isinstance(p, ast.Tuple) and isinstance(p.ctx, ast.Load):
+            e, p = p, self.parent.get(id(p))
+        if isinstance(p, ast.Subscript) and p.value is e and isinstance(p.slice, ast.Slice):
+            return True
+        if isinstance(p, ast.Call) and isinstance(p.func, ast.Name) and p.func.id == 'len' and p.args == [e]:
+            return True
+        if isinstance(p, ast.Call) and e in p.args[1:2] and self.prog.resolve_in(p.func, self.func) == 'external:struct.unpack_from' and self._from_zero(p):
+            return True  # judged as the slice [0:calcsize] by sym
+        if isinstance(p, (ast.Assign, ast.AnnAssign)) and p.value is e:
+            tg = _flat_targets(p.targets if isinstance(p, ast.Assign) else [p.target])
+            return all(isinstance(t, ast.Name) or loc_of(t) == self.bufloc for t in tg)
+        if isinstance(p, ast.AugAssign) and p.value is e:
+            return isinstance(p.target, ast.Name) or loc_of(p.target) == self.bufloc
+        if isinstance(p, ast.BinOp) and isinstance(p.op, ast.Add):
+            return self.passes_on(p)
+        if isinstance(p, (ast.Compare, ast.BoolOp, ast.If, ast.While, ast.Assert)) or (isinstance(p, ast.UnaryOp) and isinstance(p.op, ast.Not)):
+            return True
+        if isinstance(p, ast.IfExp) and p.test is e:
+            return True
+        return False
+
+    def on_expr(self, e, st):
+        if isinstance(e, ast.Name):
+            if not isinstance(e.ctx, ast.Load):
+                return (st,)
+            v = _eget(st, e.id)
+            if v == ('param', self.param):
+                self.param_reads[id(e)] = e
+                return (st,)
+            if v is None or not self.bufish(v):
+                return (st,)
+        elif isinstance(e, (ast.Attribute, ast.Subscript)) and isinstance(e.ctx, ast.Load):
+            is_slice = isinstance(e, ast.Subscript) and isinstance(e.slice, ast.Slice)
+            if not is_slice and loc_of(e) != self.bufloc:
+                return (st,)
+            v = self.sym(e, st)
+            if is_slice and self.bufish(self.sym(e.value, st)):
+                self.count('slices')
+                if not self.bufish(v):
+                    self.problem('chunk', e, f'{norm(e)}: this slice of the buffer is not understood (bounds must be sums of the header width, the decoded length and constants)')
+                    return (st,)
+            if not self.bufish(v):
+                return (st,)
+        elif isinstance(e, ast.BinOp) and isinstance(e.op, ast.Add):
+            v = self.sym(e, st)
+            if not self.bufish(v):
+                return (st,)
+        else:
+            return (st,)
+        if self.passes_on(e):
+            return (st,)
+        return (self.use(e, v, st),)
+
+    def use(self, e, v, st):
+        """the bytes v (part of the buffer) are handed to something: a decoder, a call, another attribute"""
+        if st.it is None:
+            self.problem('chunk', e, f'{norm(e)[:70]}: bytes of the buffer are used outside the reassembly loop')
+            return st
+        if v[0] == 'slice' and v[1] == self.BH and v[3] is not None:
+            lo, hi = v[2], v[3]
+            body = self.frame_of(hi) if _lconst(lo) is not None else None
+            if body is not None and body[2] != _lconst(lo):
+                body = None
+            header = lo == _lin(0) and (_lconst(hi) or 0) > 0
+            if header or body is not None:
+                if not _implied(_ladd(_lin(0, [(('len', self.BH), 1)]), hi, -1), st.facts):
+                    self.problem(
+                        'guard',
+                        e,
+                        f'{norm(e)[:70]} = {_show(v)} is used on a path where  {_show(hi)} <= len(buffer)  has not been established: '
+                        + ('a frame whose last bytes arrive in a later read is decoded truncated' if body is not None else 'fewer bytes than the header may be decoded'),
+                    )
+                if body is not None:
+                    st = st._replace(it=st.it._replace(used=st.it.used | {body}))
+                return st
+        self.problem(
+            'chunk',
+            e,
+            f'{norm(e)[:70]} = {_show(v)[:70]} is handed on, which is neither the header buffer[0:H] nor the message buffer[H:H+L] '
+            '(H the header width, L the length decoded from the header) of the buffer as it was at the start of the iteration',
+        )
+        return st
+
+    # ------------------------------------------------------------------ loops
+    def normalise(self, st):
+        old = self.read(self.bufloc, st)
+        env = {}
+        for k, v in st.env:
+            if v == old:
+                env[k] = self.BH
+            elif v[0] in ('param', 'none', 'bool', 'str', 'bytes') or _lconst(v) is not None:
+                env[k] = v
+            else:
+                env[k] = ('stale', k)
+        env[self.bufloc] = self.BH
+        return _St(frozenset(env.items()), frozenset(), st.flags, _PIt(frozenset()), 0)
+
+    def back_edge(self, s, st):
+        self.count('iterations')
+        B = self.read(self.bufloc, st)
+        if B == self.BH:
+            self.problem(
+                'consume',
+                s,
+                'an iteration can reach the loop head again without having removed anything from the buffer: the same bytes are '
+                'examined again and again, the call never returns and nothing is delivered any more',
+            )
+            return
+        if not (B[0] == 'slice' and B[1] == self.BH and B[3] is None):
+            self.problem('consume', s, f'an iteration leaves the buffer as {_show(B)[:80]}: not understood')
+            return
+        d = B[2]
+        L = self.frame_of(d)
+        if L is None:
+            self.problem(
+                'consume',
+                s,
+                f'an iteration advances the buffer by {_show(d)} bytes, not by the header width plus the length decoded from '
+                'buffer[0:header width]: the next iteration does not start at a frame boundary',
+            )
+            return
+        if not _implied(_ladd(_lin(0, [(('len', self.BH), 1)]), d, -1), st.facts):
+            self.problem(
+                'guard',
+                s,
+                f'a frame is removed on a path where  {_show(d)} <= len(buffer)  has not been established: an incomplete frame is '
+                'consumed and the bytes that arrive later are taken for a header',
+            )
+        if L not in st.it.used:
+            self.problem('chunk', s, f'an iteration removes a frame without having handed on buffer[{L[2]}:{L[2]}+L]: the message is taken from somewhere else or dropped')
+
+    def _s_While(self, s, states):
+        if not self.is_reassembly(s):
+            return Flow._s_While(self, s, states)
+        self.loops += 1
+        out = Out()
+        head = set()
+        for st in states:
+            if st.it is not None:
+                self.problem('chunk', s, 'nested reassembly loops are not understood')
+            if 'ext' not in st.flags:
+                self.problem('data-use', s, 'the loop can be entered on a path where the received data has not been appended to the buffer')
+            head.add(self.normalise(st))
+        exits = set()
+        while True:
+            t, f = self.cond(s.test, head)
+            exits |= {x._replace(it=None) for x in f}
+            ob = self.block(s.body, t)
+            out.ret |= ob.ret
+            out.exc |= ob.exc
+            out.normal |= {x._replace(it=None) for x in ob.brk}
+            back = set()
+            for st in ob.normal | ob.cont:
+                self.back_edge(s, st)
+                back.add(self.normalise(st))
+            new = head | back
+            self._cap(new)
+            if new == head:
+                break
+            head = new
+        if s.orelse:
+            out.absorb(self.block(s.orelse, exits), True)
+        else:
+            out.normal |= exits
+        return out
+
+    # ------------------------------------------------------------------- exit
+    def exit_check(self, st, node):
+        self.count('exits')
+        if 'lost' in st.flags:
+            return  # accepted: after a visible loseConnection() nothing more has to be delivered
+        if 'ext' not in st.flags:
+            self.problem('data-use', node, 'the function can return without having appended the received data to the buffer')
+        B = self.read(self.bufloc, st)
+        if B == self.BH:
+            lenb = ('len', B)
+            ks = [F[1] + 1 for F in st.facts if F[2] == ((lenb, -1),)]
+            if ks:
+                self.exit_bounds.append((node, min(ks)))  # len(buffer) < k: fine when k <= header width (decided later)
+                return
+            weaker = False
+            for L in {a for F in st.facts for a, _k in F[2] if a[0] == 'L'}:
+                r = _lin(L[2] - 1, [(L, 1), (lenb, -1)])  # H + L - len(buffer) - 1 >= 0
+                if _implied(r, st.facts):
+                    return
+                weaker = weaker or _implied(_ladd(r, _lin(1)), st.facts)
+            self.problem(
+                'exit',
+                node,
+                'the function can return without  len(buffer) < H  or  len(buffer) < H + L  (L decoded from this very buffer) '
+                'having been established'
+                + ('; only  len(buffer) <= H + L  is known: a frame that is exactly complete stays undelivered' if weaker else '')
+                + ': a complete frame can stay in the buffer until more data arrives',
+            )
+            return
+        if B[0] == 'slice' and B[1] == self.BH and B[3] is None and self.frame_of(B[2]) is not None:
+            self.problem(
+                'exit',
+                node,
+                'the function can return right after a frame was removed, without examining the remainder of the buffer: '
+                'a frame that arrived in the same read (coalesced) stays undelivered until more data arrives',
+            )
+            return
+        if B[0] == 'slice' and B[1] == self.BH:
+            self.problem(
+                'exit',
+                node,
+                f'the function can return with the buffer cut to {_show(B)[:60]}, which is not a whole frame removed: the next call '
+                'takes bytes from the middle of a frame for a header',
+            )
+            return
+        self.problem('exit', node, f'the function can return with the buffer {_show(B)[:80]}, for which no test against the frame size is known')
 
 
 # ---------------------------------------------------------------------------
@@ -1365,6 +1948,7 @@ def _show(v):
 class Shape:
     def __init__(self):
         self.bufloc = self.lenloc = self.param = self.slotloc = None
+        self.mode = 'two-state'  # or 'peek': no expected-length state at all (see _Peek)
         self.kinds = set()
         self.ext_nodes = set()
         self.errors = []  # (clause, node, msg)
@@ -1437,6 +2021,12 @@ def loop_shape(prog, f, ci):
                     guards += 1
                     deps |= _self_deps(f, sides[1 - i])
     deps = {d for d in deps if d != sh.bufloc and ci.const_node(d) is None}
+    if not deps:
+        # no mutable per-connection state takes part in any test against len(buffer): the stateless ("peek") style,
+        # where every iteration recognises a frame afresh from the front of the buffer; decided by _Peek on its merits
+        # (a function without any such test ends up here too and fails the guard / exit obligations there)
+        sh.mode = 'peek'
+        return sh
     if not guards or len(deps) != 1:
         sh.errors.append(('guard', f.node, f'no test of a needed amount against len(buffer) whose amount depends on exactly one mutable per-connection state was found (guards={guards}, state={sorted(deps)})'))
         return sh
@@ -1469,18 +2059,36 @@ def analyse_loop(prog, f):
     f = ci.nf(f)
     sh = loop_shape(prog, f, ci)
     fl = None
-    if sh.bufloc and sh.lenloc and sh.kinds:
+    inits = set()
+    if sh.bufloc and sh.mode == 'peek':
+        fl = _Peek(prog, f, ci, sh.bufloc, sh.param, sh.ext_nodes)
+        env = {sh.bufloc: fl.BH}
+        for p in f.params():
+            if p != 'self':
+                env[p] = ('param', p)
+        inits.add(_St(frozenset(env.items()), frozenset(), frozenset(), None, 0))
+    elif sh.bufloc and sh.lenloc and sh.kinds:
         fl = _Loop(prog, f, ci, sh.bufloc, sh.lenloc, sh.kinds, sh.param, sh.ext_nodes, sh.slotloc)
-        inits = set()
         for k in sorted(sh.kinds):
             env = {sh.bufloc: fl.BH, sh.lenloc: NONE if k == 'none' else fl.LH}
             for p in f.params():
                 if p != 'self':
                     env[p] = ('param', p)
             inits.add(_St(frozenset(env.items()), frozenset(), frozenset(), None, 0))
+    if fl is not None:
         out = fl.run(f.node, inits)
         for st in out.normal | out.ret:
             fl.exit_check(st, f.node)
+        if sh.mode == 'peek':
+            widths = {w for w, _fm in fl.hdr}
+            for node, k in fl.exit_bounds:
+                if any(k > w for w in widths):  # (no header decoded at all: header-width fails in _rule1)
+                    fl.problem(
+                        'exit',
+                        node,
+                        f'the function can return because fewer than {k} bytes are buffered, which is more than the header width '
+                        f'{sorted(widths)}: a complete frame with a short body stays undelivered until more data arrives',
+                    )
         for nid, node in fl.param_reads.items():
             if nid not in sh.ext_nodes:
                 p = fl.parent.get(nid)
@@ -1494,6 +2102,8 @@ def analyse_loop(prog, f):
         allowed = {f.qname}
         restorers = {g.qname for g in restoring_funcs(prog, ci)} if sh.slotloc else set()
         for loc, extra in ((sh.bufloc, restorers), (sh.lenloc, None)):
+            if loc is None:
+                continue  # stateless style: the buffer is the only stream state
             for g, node in stores.get(attr_of(loc), []):
                 if g.cls is not f.cls:
                     fl.problem('writers', node, f'{g.qname} writes the per-connection state {attr_of(loc)} from outside {f.cls.qname}')
@@ -1534,6 +2144,16 @@ _CLAUSES = (
     ('chunk', 'the unit handed on is buffer[:needed] taken before the buffer is advanced; the buffer does not escape'),
     ('exit', 'the function returns only after  needed > len(buffer)  was established for the state it leaves (needed is fresh)'),
     ('writers', 'buffer and expected length are written only by the receive function (and the constructor)'),
+)
+
+
+_CLAUSES_PEEK = (
+    ('data-use', 'the received data extends the per-connection buffer exactly once, before the loop, and is used for nothing else'),
+    ('guard', 'header and message slices are used, and a frame is removed, only on paths where  H <= len(buffer)  resp.  H + L <= len(buffer)  was established'),
+    ('consume', 'every iteration that reaches the loop head again advanced the buffer by exactly H + L (L decoded from buffer[0:H]); nothing else writes the buffer'),
+    ('chunk', 'the message handed on is exactly buffer[H:H+L] of the buffer as it was at the start of the iteration; no other part escapes'),
+    ('exit', 'the function returns only with the buffer untouched after  len(buffer) < H  or  len(buffer) < H + L  was established'),
+    ('writers', 'the buffer is written only by the receive function (and the constructor)'),
 )
 
 
@@ -1731,15 +2351,19 @@ def _rule1(ctx, rep):
             for clause, node, msg in sh.errors:
                 probs.setdefault((clause, _short(node)), (node, msg))
             r.extra.setdefault('symbolic', {})[q] = dict(
-                buffer=sh.bufloc, expected_length=sh.lenloc, states=sorted(sh.kinds), steps=fl.visited, **fl.counts
+                buffer=sh.bufloc, expected_length=sh.lenloc, style=sh.mode, states=sorted(sh.kinds), steps=fl.visited, **fl.counts
             )
-            for clause, title in _CLAUSES:
+            for clause, title in (_CLAUSES_PEEK if sh.mode == 'peek' else _CLAUSES):
                 mine = [(k, v) for k, v in probs.items() if k[0] == clause]
                 if not mine:
                     r.ok(f'{q}:{clause}', title, where(f))
                 for (c, text), (node, msg) in mine:
                     r.fail(f'{q}:{clause}' + (f':{text}' if text else ''), where(f, node), msg)
-            if 'none' in sh.kinds:
+            listed = {c for c, _t in (_CLAUSES_PEEK if sh.mode == 'peek' else _CLAUSES)}
+            for (c, text), (node, msg) in probs.items():
+                if c not in listed and not c.startswith('gate-'):  # gate-*: reported by R-C14-2
+                    r.fail(f'{q}:{c}' + (f':{text}' if text else ''), where(f, node), msg)
+            if sh.mode == 'peek' or 'none' in sh.kinds:
                 ws = {w for w, _f in fl.hdr}
                 widths[q] = ws
                 r.check(
@@ -2580,7 +3204,122 @@ def _f_new(pre='', flag='want_header = self.__len is None', amount='self.__blen 
     )
 
 
+def _peek(
+    head='while self.__blen <= len(self.__buf):',
+    decode="length = struct.unpack('>I', self.__buf[: self.__blen])[0]",
+    test='len(self.__buf) < self.__blen + length',
+    leave='break',
+    pre='end = self.__blen + length',
+    body='self.__buf[self.__blen : end]',
+    advance='self.__buf = self.__buf[end:]',
+):
+    """farm.Hand.dataReceived rewritten in the stateless style (replaces _F_OLD)"""
+    leave = leave.replace('\n', '\n                ')
+    pre = pre.replace('\n', '\n            ')
+    return (
+        f"{head}\n"
+        f"            {decode}\n"
+        f"            if {test}:\n"
+        f"                {leave}\n"
+        f"            {pre}\n"
+        f"            msg = dawgie.pl.message.loads({body})\n"
+        f"            {advance}\n"
+        "            self._process(msg)\n"
+    )
+
+
+_L_OLD = (
+    "length = self.__blen if self.__len is None else self.__len\n"
+    "        while length <= len(self.__buf):\n"
+    "            if self.__len is None:\n"
+    "                self.__len = struct.unpack('>L', self.__buf[:length])[0]\n"
+    "                self.__buf = self.__buf[length:]\n"
+    "            else:\n"
+    "                record = pickle.loads(self.__buf[:length])\n"
+    "                self.__actual.handle(logging.makeLogRecord(record))\n"
+    "                self.__actual.flush()\n"
+    "                self.__buf = self.__buf[length:]\n"
+    "                self.__len = None\n"
+    "                pass\n"
+    "\n"
+    "            length = self.__blen if self.__len is None else self.__len\n"
+    "            pass\n"
+)
+# log sink, stateless: while True, header and body sliced into locals first, if/else with the exit in the else branch,
+# return instead of break, the record handled before the buffer is advanced (as today)
+_L_PEEK = (
+    "while True:\n"
+    "            if len(self.__buf) < self.__blen:\n"
+    "                return\n"
+    "            header = self.__buf[: self.__blen]\n"
+    "            (size,) = struct.unpack('>L', header)\n"
+    "            payload = self.__buf[self.__blen : self.__blen + size]\n"
+    "            if len(self.__buf) >= self.__blen + size:\n"
+    "                record = pickle.loads(payload)\n"
+    "                self.__actual.handle(logging.makeLogRecord(record))\n"
+    "                self.__actual.flush()\n"
+    "                self.__buf = self.__buf[self.__blen + size :]\n"
+    "            else:\n"
+    "                return\n"
+)
+_C_OLD = (
+    "length = ( self.__buf['actual'] if self.__buf['expected'] is None else self.__buf['expected'] )\n"
+    "        while length <= len(self.__buf['data']):\n"
+    "            if self.__buf['expected'] is None:\n"
+    "                self.__buf['expected'] = struct.unpack( '>I', self.__buf['data'][:length] )[0]\n"
+    "                self.__buf['data'] = self.__buf['data'][length:]\n"
+    "            else:\n"
+    "                request = pickle.loads(self.__buf['data'][:length])\n"
+    "                self.__buf['data'] = self.__buf['data'][length:]\n"
+    "                self.__buf['expected'] = None\n"
+)
+# database worker, stateless: remaining-bytes spelling of the completeness test, slice of a slice, the buffer advanced
+# in two steps (header, then body); the old recomputation of `length` at the end of the body stays behind as a dead store
+_C_PEEK = (
+    "while self.__buf['actual'] <= len(self.__buf['data']):\n"
+    "            length = struct.unpack('>I', self.__buf['data'][: self.__buf['actual']])[0]\n"
+    "            if len(self.__buf['data']) - self.__buf['actual'] < length:\n"
+    "                break\n"
+    "            if True:\n"
+    "                rest = self.__buf['data'][self.__buf['actual'] :]\n"
+    "                request = pickle.loads(rest[:length])\n"
+    "                self.__buf['data'] = rest\n"
+    "                self.__buf['data'] = self.__buf['data'][length:]\n"
+)
+
 VARIANTS = [
+    # ---- R-C14-1, stateless ("peek") style of the reassembly loops
+    V('peek: farm, the stateless rewrite', 'N', _F, 'Hand.dataReceived', _F_OLD, _peek(), None),
+    V('peek: log sink, locals first, if/else, return', 'N', _L, 'LogSink.dataReceived', _L_OLD, _L_PEEK, None),
+    V('peek: db worker, remaining-bytes test, slice of a slice, two-step advance', 'N', _C, 'Worker.dataReceived', _C_OLD, _C_PEEK, None),
+    V('peek: farm, while True / return, inverted test, literal width, from_bytes', 'N', _F, 'Hand.dataReceived', _F_OLD,
+      _peek(head='while True:\n            if not 4 <= len(self.__buf):\n                return',
+            decode="length = int.from_bytes(self.__buf[:4], 'big')", test='not (len(self.__buf) - length >= 4)', leave='return',
+            pre='pass', body='self.__buf[4 : 4 + length]', advance='self.__buf = self.__buf[length + 4 :]'), None),
+    V('peek: farm, completeness cached in a boolean local, unpack_from', 'N', _F, 'Hand.dataReceived', _F_OLD,
+      _peek(decode="length = struct.unpack_from('>I', self.__buf)[0]\n            complete = self.__blen + length <= len(self.__buf)", test='not complete'), None),
+    V('peek: farm, completeness test forgets the header bytes', 'B', _F, 'Hand.dataReceived', _F_OLD, _peek(test='len(self.__buf) < length'), 'R-C14-1'),
+    V('peek: farm, buffer advanced by the body length only', 'B', _F, 'Hand.dataReceived', _F_OLD, _peek(advance='self.__buf = self.__buf[length:]'), 'R-C14-1'),
+    V('peek: farm, message decoded from buffer[0:L]', 'B', _F, 'Hand.dataReceived', _F_OLD, _peek(body='self.__buf[:length]'), 'R-C14-1'),
+    V('peek: farm, incomplete frame spins (continue)', 'B', _F, 'Hand.dataReceived', _F_OLD, _peek(leave='continue'), 'R-C14-1'),
+    V('peek: farm, incomplete frame drops the buffer', 'B', _F, 'Hand.dataReceived', _F_OLD, _peek(leave="self.__buf = b''\nbreak"), 'R-C14-1'),
+    V('peek: farm, exactly complete frame left behind', 'B', _F, 'Hand.dataReceived', _F_OLD, _peek(test='len(self.__buf) <= self.__blen + length'), 'R-C14-1'),
+    V('peek: farm, one frame per call (no loop)', 'B', _F, 'Hand.dataReceived', _F_OLD,
+      _peek(head='if self.__blen <= len(self.__buf):', leave='return'), 'R-C14-1'),
+    V('peek: farm, leaves right after a frame', 'B', _F, 'Hand.dataReceived', _F_OLD, _peek(advance='self.__buf = self.__buf[end:]\n            break'), 'R-C14-1'),
+    V('peek: farm, loop entered with fewer bytes than the header', 'B', _F, 'Hand.dataReceived', _F_OLD, _peek(head='while self.__blen < len(self.__buf) + 2:'), 'R-C14-1'),
+    V('peek: farm, loop needs one byte more than the header', 'B', _F, 'Hand.dataReceived', _F_OLD, _peek(head='while self.__blen < len(self.__buf):'), 'R-C14-1'),
+    V('peek: farm, length decoded from the wrong bytes', 'B', _F, 'Hand.dataReceived', _F_OLD,
+      _peek(decode="length = struct.unpack('>I', self.__buf[1 : self.__blen + 1])[0]"), 'R-C14-1'),
+    V('peek: farm, message starts one byte late', 'B', _F, 'Hand.dataReceived', _F_OLD, _peek(body='self.__buf[self.__blen + 1 : end]'), 'R-C14-1'),
+    V('peek: farm, buffer advanced one byte too far', 'B', _F, 'Hand.dataReceived', _F_OLD, _peek(pre='end = self.__blen + length', body='self.__buf[self.__blen : end]', advance='self.__buf = self.__buf[end + 1:]'), 'R-C14-1'),
+    V('peek: farm, stale length from before the loop', 'B', _F, 'Hand.dataReceived', _F_OLD,
+      _peek(head="length = struct.unpack('>I', self.__buf[: self.__blen])[0] if self.__blen <= len(self.__buf) else 0\n        while self.__blen <= len(self.__buf):", decode='pass'), 'R-C14-1'),
+    V('peek: farm, received data replaces the buffer', 'B', _F, 'Hand.dataReceived', 'self.__buf += data\n        ' + _F_OLD, 'self.__buf = data\n        ' + _peek(), 'R-C14-1'),
+    V('peek: log sink, record unpickled before the frame is known to be complete', 'B', _L, 'LogSink.dataReceived', _L_OLD,
+      _L_PEEK.replace('payload = self.__buf[self.__blen : self.__blen + size]', 'payload = self.__buf[self.__blen : self.__blen + size]\n            record = pickle.loads(payload)'), 'R-C14-1'),
+    V('peek: db worker, header removed before the frame is known to be complete', 'B', _C, 'Worker.dataReceived', _C_OLD,
+      _C_PEEK.replace("            if len(self.__buf['data']) - self.__buf['actual'] < length:\n                break\n", "            self.__buf['data'] = self.__buf['data'][self.__buf['actual'] :]\n            if len(self.__buf['data']) < length:\n                break\n"), 'R-C14-1'),
     V('farm: while True, state cached in a boolean local, conditional amount', 'N', _F, 'Hand.dataReceived', _F_OLD, _f_new(), None),
     V('farm: cached state through a negated flag', 'N', _F, 'Hand.dataReceived', _F_OLD,
       _f_new(flag='have_len = not (self.__len is None)', amount='self.__len if have_len else self.__blen', test='not have_len'), None),
